@@ -40,7 +40,8 @@ fn create_box_gauss(sigma: f32) -> [i32; STEPS] {
 
         // Ideal averaging filter width
         let w_ideal = (12.0 * sigma * sigma / n_float).sqrt() + 1.0;
-        let mut wl = w_ideal.floor() as i32;
+        // A huge sigma saturates the cast. Leave room for `wl + 2` below.
+        let mut wl = cmp::min(w_ideal.floor() as i32, i32::MAX - 2);
         if wl % 2 == 0 {
             wl -= 1;
         }
